@@ -61,6 +61,10 @@ def gen_h(rng):
     h = hgx.Hypergraph(edges)
     if rng.random() < 0.3:
         h.add_node(labels[-1])
+    if rng.random() < 0.35:  # calls the library refuses, made before measuring (a refused call must leave no trace)
+        from ..mutate import refused_calls
+
+        refused_calls(rng, h)
     return h, edges
 
 
@@ -79,7 +83,9 @@ def run_case(ctx, rng, idx):
             while sum(1 for e in es if len(e) == size) < cnt:
                 es.add(tuple(sorted(rng.sample(nodes, size))))
         hb = hgx.Hypergraph(sorted(es))
-        undirected(ctx, rng, idx, hb, [tuple(e) for e in hb.get_edges()], phase=1)
+        # the scale case is run over a fixed grid of parameters, so that what it reaches does not depend on one draw
+        for force in ((50, "edge", True), (50, "stub", True), (50, "edge", False), (400, "stub", False)):
+            undirected(ctx, rng, idx, hb, [tuple(e) for e in hb.get_edges()], phase=1, force=force)
         return
     if idx == 1 or (ctx.tier == "thorough" and idx % 700 == 9):
         from ..gen import big_hypergraph
@@ -92,16 +98,20 @@ def run_case(ctx, rng, idx):
     undirected(ctx, rng, idx, h, edges, phase=0)
 
 
-def undirected(ctx, rng, idx, h, edges, phase):
+def undirected(ctx, rng, idx, h, edges, phase, force=None):
     from hypergraphx.generation import configuration_model as cm
 
     S0 = observe(h)
     n_steps = rng.choice([0, 1, 5, 50, 400])
     label = rng.choice(["edge", "stub"])
     detailed = rng.random() < 0.6
+    if force:
+        n_steps, label, detailed = force
     sizes_present = sorted({len(e) for e in edges})
     sel = rng.choice([None, None, "size", "order"])
     k = rng.choice(sizes_present)
+    if force:
+        sel = None
     kw = dict(n_steps=n_steps, label=label, detailed=detailed)
     if sel == "size":
         kw["size"] = k
@@ -219,6 +229,10 @@ def directed_case(ctx, rng, idx):
     if len(edges) < 2:
         return
     h = hgx.DirectedHypergraph(edges)
+    if rng.random() < 0.35:  # calls the library refuses, made before measuring (a refused call must leave no trace)
+        from ..mutate import refused_calls
+
+        refused_calls(rng, h, directed=True)
     S0 = observe(h)
     fn = dcm.directed_configuration_model
     src, first = inspect.getsourcelines(fn)
